@@ -35,8 +35,8 @@ def reqStr : Req → String
   | .getObj k n => s!"get {k}/{n}"
   | .gcUpdate k n => s!"update {k}/{n}"
   | .delete k n => s!"delete {k}/{n}"
-  | .patchRefs _ => "patch XThing/xr apply"
-  | .updateXR _ _ => "update XThing/xr"
+  | .patchRefs _ _ => "patch XThing/xr apply"
+  | .updateXR _ _ _ => "update XThing/xr"
   | .apply k n _ _ => s!"patch {k}/{n} apply"
   | .create k n _ _ => s!"create {k}/{n}"
   | .mergePatch k n _ _ => s!"patch {k}/{n} merge"
@@ -70,8 +70,9 @@ def uniq (s : St) : Bool :=
 def handler : Handler := fun scn => do
   let mode := str scn "mode"
   let objs0 := (arr scn "objs").map objOf
-  let mut st : St := ⟨bool scn "fin", 0, (arr scn "refs").map (fun j => ⟨str j "kind", str j "name"⟩), objs0,
-    objs0.filter (·.ctrl == .other)⟩
+  let refs0 : List Ref := (arr scn "refs").map fun j => ⟨str j "kind", str j "name"⟩
+  let mut st : St := { xrFin := bool scn "fin", xrRv := 0, refs := refs0,
+                       objs := objs0, refsVer := "v1", foreign0 := objs0.filter (·.ctrl == .other) }
   let mut outs : Array Json := #[]
   let mut ok := true
   let mut why := ""
@@ -83,10 +84,11 @@ def handler : Handler := fun scn => do
       | .arr a => ((a[0]?.bind (·.getStr?.toOption)).getD "", (a[1]?.bind (·.getStr?.toOption)).getD "")
       | _ => ("", "")
     let fnErr := str rd "fnErr"
-    let ch : Choices := ⟨gen.map (·.2), orderBy (·.annot) (strs h "gc"), orderBy (·.d.rname) (strs h "apply")⟩
+    let ver := if str rd "ver" == "" then "v1" else str rd "ver"
+    let ch : Choices := ⟨ver, gen.map (·.2), orderBy (·.annot) (strs h "gc"), orderBy (·.d.rname) (strs h "apply")⟩
     let m : Mode := if mode == "fn" then
         .fn (fun _ => if fnErr == "" then .desired (orderBy (·.rname) (gen.map (·.1)) ds) else .failed) ch
-      else .pt ds (gen.map (·.2))
+      else .pt ds (gen.map (·.2)) ver
     let plan : Plan := if has rd "fault" then
         let f := obj rd "fault"
         Plan.at (nat f "k") (outcomeOf (str f "o"))
